@@ -170,7 +170,22 @@ func (g *Generator) generateMockFieldAssignments(
 	message *protogen.Message,
 	varName string,
 ) {
+	g.generateMockFieldAssignmentsVisiting(gf, message, varName, map[protoreflect.FullName]bool{})
+}
+
+// generateMockFieldAssignmentsVisiting is generateMockFieldAssignments with the set of
+// message types currently being expanded: a message that (directly or mutually)
+// contains itself is expanded once per path and then left empty, so generation
+// terminates for recursive types.
+func (g *Generator) generateMockFieldAssignmentsVisiting(
+	gf *protogen.GeneratedFile,
+	message *protogen.Message,
+	varName string,
+	visiting map[protoreflect.FullName]bool,
+) {
 	messageName := string(message.Desc.Name())
+	visiting[message.Desc.FullName()] = true
+	defer delete(visiting, message.Desc.FullName())
 
 	for _, field := range message.Fields {
 		fieldName := field.GoName
@@ -199,12 +214,16 @@ func (g *Generator) generateMockFieldAssignments(
 			switch {
 			case field.Desc.IsMap():
 				// Handle map fields
-				g.generateMockMapFieldAssignment(gf, field, varName)
+				g.generateMockMapFieldAssignment(gf, field, varName, visiting)
 			case field.Desc.IsList():
 				gf.P("// TODO: Handle repeated message field ", fieldName)
 			default:
+				if visiting[field.Message.Desc.FullName()] {
+					gf.P("// recursive message field ", fieldName, " left unset")
+					continue
+				}
 				gf.P(varName, ".", fieldName, " = &", field.Message.GoIdent, "{}")
-				g.generateMockFieldAssignments(gf, field.Message, varName+"."+fieldName)
+				g.generateMockFieldAssignmentsVisiting(gf, field.Message, varName+"."+fieldName, visiting)
 			}
 		case protoreflect.EnumKind,
 			protoreflect.Sint32Kind,
@@ -229,6 +248,7 @@ func (g *Generator) generateMockMapFieldAssignment(
 	gf *protogen.GeneratedFile,
 	field *protogen.Field,
 	varName string,
+	visiting map[protoreflect.FullName]bool,
 ) {
 	fieldName := field.GoName
 
@@ -258,7 +278,9 @@ func (g *Generator) generateMockMapFieldAssignment(
 		gf.P(varName, ".", fieldName, "[", sampleKey, "] = &", valueField.Message.GoIdent, "{}")
 		// Populate the value message fields
 		mapValueVar := varName + "." + fieldName + "[" + sampleKey + "]"
-		g.generateMockFieldAssignments(gf, valueField.Message, mapValueVar)
+		if !visiting[valueField.Message.Desc.FullName()] {
+			g.generateMockFieldAssignmentsVisiting(gf, valueField.Message, mapValueVar, visiting)
+		}
 	} else {
 		// Value is a scalar type
 		valueType := g.getGoTypeScalar(valueField)
